@@ -472,7 +472,7 @@ func prepareCall(fr *frame, call *ssa.CallCommon) (fn value, args []value) {
 		// Interface method invocation.
 		recv := v.(iface)
 		if recv.t == nil {
-			rtPanic("invalid memory address or nil pointer dereference (method invoked on nil interface)")
+			rtPanic("invalid memory address or nil pointer dereference (method invoked on nil interface) at " + trail())
 		}
 		if f := lookupMethod(fr.i, recv.t, call.Method); f == nil {
 			// Unreachable in well-typed programs.
